@@ -4,9 +4,12 @@ import json, glob, os
 ROOT = os.path.dirname(os.path.abspath(__file__))
 props = [json.loads(l) for l in open(os.path.join(ROOT, "properties.jsonl"))]
 cfgs = {}
+import re
 for f in sorted(glob.glob(os.path.join(ROOT, "props", "C*.json"))):
+    if not re.fullmatch(r"C\d+\.json", os.path.basename(f)):
+        continue   # fragments / proposals of builders
     c = json.load(open(f))
-    if c.get("claimed", True):
+    if c.get("claimed", False):
         cfgs[c["id"]] = c
 checks, na = [], []
 for p in props:
